@@ -270,4 +270,6 @@ def instances(tier):
     from .common import lemma_instance
     out.append(lemma_instance('C02', 'em', 'lemma:em-monotonicity-from-the-expected-complete-data-log-likelihood'))
     out.append(lemma_instance('C02', 'gauss_mstep', 'lemma:gaussian-m-step-maximises-the-expected-complete-data-log-likelihood'))
+    out.append(lemma_instance('C02', 'cacgmm', 'lemma:cacg-mm-step-does-not-decrease-the-weighted-log-likelihood',
+                              ['cacg_scale_invariant', 'complex_logdet_le_trace', 'complex_logdet_mul_le_trace', 'cacg_mm_step']))
     return out
